@@ -153,4 +153,38 @@ theorem memcmp_eq (ct : CT) (hb : 0 < ct.bits) (a : Buf) (i : Nat) (b : Buf) (j 
   exact memcmpLoop_spec ct a b n (a.drop i) (b.drop j) i j rfl rfl (by simp; omega) (by simp; omega)
     (units_inj ct hb hua hub i j)
 
+/-! ## searches: pointer results are offsets; the model returns the absolute index `p + offset` -/
+
+/-- `memchr` reads sequentially and stops at the first match: the count may exceed the allocation
+    when the unit occurs inside it. -/
+theorem memchr_eq (ct : CT) (b : Buf) (p : Nat) (ch : Int) (n : Nat)
+    (h : p + n ≤ b.length ∨ Spec.toUnit ct.bits ch ∈ b.drop p) :
+    memchr ct b p ch n = .ok ((Spec.memchr b p (Spec.toUnit ct.bits ch) n).map (p + ·)) := by
+  unfold memchr Spec.memchr
+  have hc : ct.cast ch = Spec.toUnit ct.bits ch := rfl
+  rw [hc, memchrLoop_spec b p _ n (b.drop p) 0 rfl (by
+    rcases h with h | h
+    · left; simp; omega
+    · right; exact h)]
+  simp
+
+theorem strchr_eq (ct : CT) (b : Buf) (p : Nat) (ch : Int) (h : Spec.Terminated b p) :
+    strchr ct b p ch = .ok ((Spec.strchr b p (Spec.toUnit ct.bits ch)).map (p + ·)) := by
+  unfold strchr Spec.strchr Spec.cstr
+  have hc : ct.cast ch = Spec.toUnit ct.bits ch := rfl
+  rw [hc, strchrLoop_spec b _ (b.drop p) p (b.length + 1) rfl h (drop_length_lt b p)]
+
+/-! ## non-vacuity: the hypotheses hold on ordinary inputs (tests on samples, not proofs of anything general) -/
+
+example : Spec.Terminated [97, 98, 0, 5] 1 := by decide
+example : Spec.Terminated [97, 98, 0] 0 ∧ 1 + (Spec.strlen [97, 98, 0] 0 + 1) ≤ [238, 239, 239, 239, 238].length := by decide
+example : Spec.ReadableN [97, 98] 0 2 ∧ Spec.ReadableN [97, 0] 0 5 ∧ ¬ Spec.ReadableN [97, 98] 0 3 := by decide
+example : Spec.Terminated [238, 97, 0, 239, 239, 238] 1 ∧ Spec.Terminated [98, 0] 0 ∧
+    1 + Spec.strlen [238, 97, 0, 239, 239, 238] 1 + (Spec.strlen [98, 0] 0 + 1) ≤ [238, 97, 0, 239, 239, 238].length := by decide
+example : Spec.Units 8 [97, 200, 0] ∧ Spec.Units 32 [97, 2147483664, 0] ∧ ¬ Spec.Units 8 [256] := by decide
+example : strcmp CT.char [0] 0 [200, 0] 0 = .ok (-1) :=
+  strcmp_eq CT.char (by decide) [0] 0 [200, 0] 0 (by decide) (by decide) (by decide) (by decide)
+example : memmove [1, 2, 3, 4, 5] 1 0 3 = .ok (1, [1, 1, 2, 3, 5]) := memmove_eq [1, 2, 3, 4, 5] 1 0 3 (by decide) (by decide)
+example : (0 + 5 ≤ [97, 98].length ∨ Spec.toUnit 8 98 ∈ [97, 98].drop 0) := by decide
+
 end Tetl.C18.Props
